@@ -92,7 +92,8 @@ CmpFrom(a, b, i, j) ==      \* a, b lower-case
                        ELSE [v |-> LexCmp(ra, rb), rule |-> R_PUNCT]
               IN IF r.v # 0 THEN r ELSE CmpFrom(a, b, ea, eb)
 
-VerCmpR(a, b) == CmpFrom(LowerAll(a), LowerAll(b), 1, 1)     \* C: letter case is ignored
+Lowered(t)    == IF \E k \in 1 .. Len(t) : t[k] \in 65 .. 90 THEN LowerAll(t) ELSE t
+VerCmpR(a, b) == CmpFrom(Lowered(a), Lowered(b), 1, 1)       \* C: letter case is ignored
 VerCmp(a, b)  == VerCmpR(a, b).v
 
 \* longest run of one class in t (X: values are claimed only up to MaxClaimedRun)
@@ -100,9 +101,10 @@ RECURSIVE LongestRunFrom(_, _)
 LongestRunFrom(t, i) == IF i > Len(t) THEN 0
                         ELSE LET e == RunEnd(t, i, ClassOf(t[i])) m == LongestRunFrom(t, e) IN IF e - i > m THEN e - i ELSE m
 Claimed(a, b) == LongestRunFrom(a, 1) <= MaxClaimedRun /\ LongestRunFrom(b, 1) <= MaxClaimedRun
-\* what the implementation is asked: 10 * rule + (value + 1); rule 0 = value not claimed (E, X)
+\* what the implementation is asked: 10 * rule + (value + 1); the value is not claimed for rule 0 (X: a run longer
+\* than MaxClaimedRun) and for rule 9 (E: R_TAILEITHER)
 Code(a, b) == LET r == VerCmpR(a, b) IN
-              IF r.rule = R_TAILEITHER \/ ~Claimed(a, b) THEN 1 ELSE 10 * r.rule + (r.v + 1)
+              IF ~Claimed(a, b) THEN 1 ELSE 10 * r.rule + (r.v + 1)
 
 ------------------------------------------------------------------------------------------
 (* universes *)
@@ -165,11 +167,11 @@ Spec == Init /\ [][Next]_vars
 (* laws of the reference *)
 \* S: compare(a, a) = equal
 Reflexive == (~done /\ mode = "raw") => VerCmp(URaw[row], URaw[row]) = 0
-\* S: compare(a, b) = -compare(b, a), with the same deciding rule in both directions
+\* S: compare(a, b) = -compare(b, a), with the same deciding rule in both directions (each unordered pair once)
 Antisymmetric ==
     (~done /\ mode \in {"raw", "wf"}) =>
         LET U == IF mode = "raw" THEN URaw ELSE UWfText IN
-        \A j \in 1 .. Len(U) : LET x == VerCmpR(U[row], U[j]) y == VerCmpR(U[j], U[row]) IN x.v = -y.v /\ x.rule = y.rule
+        \A j \in row .. Len(U) : LET x == VerCmpR(U[row], U[j]) y == VerCmpR(U[j], U[row]) IN x.v = -y.v /\ x.rule = y.rule
 \* S: the stated ordering clauses, on every pair of well-formed versions
 FirstNumDiff(p, q) == CHOOSE k \in 1 .. (MinOf(Len(p), Len(q)) + 1) :
                          (k = MinOf(Len(p), Len(q)) + 1 \/ p[k] # q[k]) /\ \A m \in 1 .. (k - 1) : p[m] = q[m]
